@@ -263,7 +263,13 @@ def brokerVerdicts (pre : Server) (ws : List String) (core flags : String) : Lis
             let c05 := if closed || (flGet c id).isSome then [] else
               let extra := gotR.filter (fun g => !expect.contains g)
               let miss := expect.filter (fun e => !gotR.contains e)
+              let extraDenied := extra.filter fun g =>
+                match parseHex ((g.splitOn "=").headD "") with
+                | some t => !aclOk pre c.id t false
+                | none => false
               (if !extra.isEmpty && c.tam == 0 then [fail "C05" "-" s!"retained messages sent that the spec does not select: {extra}"] else []) ++
+              (if !extraDenied.isEmpty && c.tam == 0 then
+                 [fail "C17" "-" s!"retained messages on topics the client is not authorised to read were sent on SUBSCRIBE: {extraDenied}"] else []) ++
               (if !miss.isEmpty && !flowLimited then [fail "C05" "-" s!"retained messages not sent: {miss}"] else [])
             -- C04: retained deliveries carry the subscription identifier of the SUBSCRIBE
             let si := if c.ver == 5 then kvNatD kv "si" 0 else 0
@@ -506,6 +512,83 @@ def c09Update (st : BkState) (pre post : Server) (ws : List String) (io : ImplOu
     | _ => st
   (st, vs)
 
+/-- the session of client `cid` holds a copy of payload `p` that flow control deferred (stored with Expiry = -1) -/
+def deferredCopy (srv : Server) (cid : Str) (p : String) : Bool :=
+  match assocGet srv.clients cid with
+  | some i => (getObj srv i).inflight.any fun m => toHex m.payload == p && m.expiry < 0
+  | none => false
+
+/-- C25 on the real broker's streams. A client PUBLISH takes effect at (virtual) time 0 with the effective
+    interval `eff` = the smaller non-zero of the publisher's Message Expiry Interval and the server maximum;
+    `bk.tick retained T` / `bk.tick inflight T` is the broker's housekeeping of that store at time `T`. Once the
+    housekeeping of a store has run at `T > eff`, no copy from that store that has not yet been sent may be
+    delivered: not a retained replay on SUBSCRIBE, not a first transmission from a session's queue. A delivered
+    message carries a Message Expiry Interval no larger than the time remaining (harness flag `expiry-exceeds`). -/
+def c25Update (st : BkState) (pre post : Server) (ws : List String) (io : ImplOut) (flags : String) : BkState × List String :=
+  -- 1. housekeeping
+  let st := match ws with
+    | ["bk.tick", kind, t] =>
+      match t.toNat? with
+      | some t =>
+        { st with msgs25 := st.msgs25.map fun (p, eff, r, i) =>
+            (p, eff, r || (kind == "retained" && eff > 0 && t > eff), i || (kind == "inflight" && eff > 0 && t > eff)) }
+      | none => st
+    | _ => st
+  -- 2. a client PUBLISH: its effective interval; copies written to open connections count as sent
+  let st := match ws with
+    | "bk.send" :: n :: "PUBLISH" :: kv =>
+      match n.toNat?.bind (objOfConn pre), kvGet kv "p" with
+      | some c, some p =>
+        if p.isEmpty || st.msgs25.any (·.1 == p) then st else
+        let me := if c.ver == 5 then kvNatD kv "me" 0 else 0
+        let mx := pre.caps.maxMessageExpiry
+        let eff := if me == 0 then mx else if mx == 0 then me else min me mx
+        let sentNow := post.clients.filterMap fun (cid, i) =>
+          let o := getObj post i
+          if o.isOpen && o.inflight.any (fun m => toHex m.payload == p && m.expiry ≥ 0) then some (cid, p) else none
+        { st with msgs25 := st.msgs25 ++ [(p, eff, false, false)], sent25 := st.sent25 ++ sentNow }
+      | _, _ => st
+    | _ => st
+  -- 3. deliveries of this op
+  let isSubscribe := match ws with | "bk.send" :: _ :: "SUBSCRIBE" :: _ => true | _ => false
+  let isAck := match ws with
+    | "bk.send" :: _ :: t :: _ => t == "PUBACK" || t == "PUBREC" || t == "PUBCOMP" || t == "PUBREL"
+    | "bk.ack" :: _ => true
+    | _ => false
+  let (st, vs) := io.conns.foldl (fun (acc : BkState × List String) (nd : Nat × List String) =>
+    nd.2.foldl (fun (acc : BkState × List String) (pk : String) =>
+      let (st, vs) := acc
+      if !pk.startsWith "PUB:" then acc else
+      match fieldOf pk "p=", objOfConn post nd.1 with
+      | some p, some c =>
+        match st.msgs25.find? (·.1 == p) with
+        | none => acc
+        | some (_, eff, expR, expI) =>
+          if isSubscribe then
+            (st, if expR then vs ++ [fail "C25" "-" s!"c{nd.1}: the retained message {p} (effective expiry {eff} s) was delivered on SUBSCRIBE after the retained store's housekeeping ran later than its expiry"] else vs)
+          else
+            let already := st.sent25.contains (c.id, p)
+            let v := if !already && expI then
+                [fail "C25" (if isAck || deferredCopy pre c.id p then "F25a" else if c.ver < 5 then "F25b" else "-")
+                  s!"c{nd.1}: a copy of message {p} (effective expiry {eff} s) that had not been sent before was delivered after the in-flight housekeeping ran later than its expiry"]
+              else []
+            ({ st with sent25 := if already then st.sent25 else st.sent25 ++ [(c.id, p)] }, vs ++ v)
+      | _, _ => acc) acc) (st, [])
+  -- `expiry-exceeds(c<n>,<payload>,<carried>><effective>)`; a copy that was deferred by flow control (stored with
+  -- Expiry = -1) keeps the publisher's own interval: the second face of known finding F25a
+  let fl := ((flags.splitOn "expiry-exceeds(c").drop 1).map fun seg =>
+    let body := (seg.splitOn ")").headD ""
+    let parts := body.splitOn ","
+    let n := (parts.headD "").toNat?.getD 0
+    let p := parts.getD 1 ""
+    let deferred := match objOfConn post n with
+      | some c =>
+        deferredCopy pre c.id p || deferredCopy post c.id p
+      | none => false
+    fail "C25" (if deferred then "F25a" else "-")
+      s!"c{n}: message {p} was delivered with a Message Expiry Interval larger than the time remaining ({parts.getD 2 ""})"
+  (st, vs ++ fl)
+
 def renderVerdicts (vs : List String) : String :=
   if vs.isEmpty then "ok" else "; ".intercalate vs
 
@@ -539,7 +622,8 @@ def brokerOpV (st : BkState) (impl : String) (ws : List String) : Option (BkStat
     let (st'', c12) := c12Update st' st.srv st'.srv ws (parseImplOut core) flags
     let (st2b, c09) := c09Update st'' st.srv st'.srv ws (parseImplOut core)
     let (st3, c11) := c11Update st2b st.srv st'.srv ws (parseImplOut core)
-    some (st3, m, renderVerdicts (brokerVerdicts st.srv ws core flags ++ c12 ++ c09 ++ c11), g)
+    let (st4, c25) := c25Update st3 st.srv st'.srv ws (parseImplOut core) flags
+    some (st4, m, renderVerdicts (brokerVerdicts st.srv ws core flags ++ c12 ++ c09 ++ c11 ++ c25), g)
   | none => none
 
 end Mochi.Driver
